@@ -51,6 +51,7 @@ InitEx == [pc |-> "lookup", idx |-> 1, cur |-> 0, got |-> <<>>, waited |-> {}, u
            nframes |-> 0, frame |-> NoFrame, started |-> FALSE]
 X0 == [scn |-> 0, cap |-> 1, pend |-> <<>>, sends |-> <<>>, lost |-> FALSE, ordOK |-> TRUE, over |-> NoKey,
        expect |-> NoKey, expId |-> NoId, canc |-> {}, stamp |-> 0, ust |-> <<>>, unp |-> <<>>, kinds |-> <<>>]
+NoUnp == [id |-> NoId, cnt |-> 0]
 Quiet == [v |-> "", d |-> "", line |-> 0, scn |-> 0, e |-> 0, key |-> NoKey]
 
 TInit == S = Empty /\ l = 1 /\ X = X0 /\ out = Quiet
@@ -224,7 +225,11 @@ ExecV(ev, its, Y) ==
      ELSE IF \E i \in 1 .. n : ev.ids[i].k[2] # ev.at[2] THEN "ExecForeignKeyspace"
      ELSE IF n # Len(its) \/ \E i \in 1 .. n : ev.ids[i].k[3] # its[i].s THEN "ExecWrongStatement"
      ELSE IF \E i \in 1 .. n : ev.nvals[i] # TArity[its[i].s] THEN "ArityNotChecked"
-     ELSE IF Get(Y.unp, e, NoId) # NoId /\ \E i \in 1 .. n : ev.ids[i] = Y.unp[e] THEN "UnpreparedNotReprepared"
+     \* An id rejected as UNPREPARED may legitimately be sent ONCE more: evictPreparedID leaves an entry that is
+     \* still in flight alone, the executor joins that flight, and its PREPARE may have been answered before the
+     \* node forgot (same id when the node issues one id per generation).  By the second rejection that flight
+     \* is finished and is evicted, so a THIRD send of the id means the driver does not prepare again.
+     ELSE IF Get(Y.unp, e, NoUnp).cnt >= 2 /\ \E i \in 1 .. n : ev.ids[i] = Y.unp[e].id THEN "UnpreparedNotReprepared"
      ELSE ""
 
 OnExecute(ev, T, Y) ==
@@ -247,7 +252,11 @@ OnExecute(ev, T, Y) ==
 
 OnExecReply(ev, T, Y) ==
   LET e == ev.e
-      Y1 == [Y EXCEPT !.unp = Put(@, e, IF ev.kind = "unprepared" THEN ev.id ELSE NoId), !.ust = Put(@, e, Y.stamp)]
+      old == Get(Y.unp, e, NoUnp)
+      Y1 == [Y EXCEPT !.unp = Put(@, e, IF ev.kind # "unprepared" THEN NoUnp
+                                        ELSE IF old.id = ev.id THEN [id |-> ev.id, cnt |-> old.cnt + 1]
+                                        ELSE [id |-> ev.id, cnt |-> 1]),
+                      !.ust = Put(@, e, Y.stamp)]
   IN IF e = 0 \/ ~Has(T.ex, e) \/ Y.lost THEN Res(T, Y1, "", "")
      ELSE IF ev.kind = "error" THEN Res(T, Y1, "", "livelock-guard-of-the-node")
      ELSE IF T.ex[e].pc = "done" /\ T.ex[e].res = "err_ctx" THEN Res(T, Y1, "", "")   \* answer to a caller that has left
